@@ -177,6 +177,7 @@ type EpSpec struct {
 
 // Env carries the run-time objects a spec refers to by name.
 type Env struct {
+	Shared  map[string][]dtls.Option // role-independent options built per endpoint (ResumeWithOptions)
 	Stores  map[string]dtls.SessionStore
 	Extra   map[string][]dtls.Option // extra options by endpoint name (hooks etc.)
 	Sim     *Sim
@@ -327,6 +328,12 @@ func (e EpSpec) Options(server bool, env *Env, name string) (copts []dtls.Client
 	for _, o := range shared {
 		copts = append(copts, o)
 		sopts = append(sopts, o)
+	}
+	if env != nil {
+		if env.Shared == nil {
+			env.Shared = map[string][]dtls.Option{}
+		}
+		env.Shared[name] = shared
 	}
 	if server {
 		sopts = append(sopts, dtls.WithClientAuth(dtls.ClientAuthType(e.ClientAuth)))
